@@ -72,6 +72,7 @@ def op_strategy():
         st.tuples(st.just("add_str"), i, text_str(5)),
         st.tuples(st.just("join"), i, st.lists(i, max_size=3)),
         st.tuples(st.just("split"), i, st.sampled_from(["\n", " ", "a", "ab", "  "]), st.booleans(), st.booleans(), n),
+        st.sampled_from(["ab", "  ", "a ", " a", "\n\n"]).flatmap(lambda sep: st.tuples(st.just("append_split"), i, text_str(4).map(lambda x: sep[1:] + x), style_opt(), st.just(sep), st.booleans(), st.booleans(), n)),
         st.tuples(st.just("divide"), i, st.lists(st.integers(0, 20), max_size=4), n),
         st.tuples(st.just("index"), i, off),
         st.tuples(st.just("slice"), i, st.one_of(st.none(), off), st.one_of(st.none(), off)),
@@ -85,6 +86,7 @@ def op_strategy():
         st.tuples(st.just("set_length"), i, st.integers(0, 24)),
         st.tuples(st.just("expand_tabs"), i, st.one_of(st.integers(1, 8), st.none())),
         st.tuples(st.just("copy"), i),
+        st.tuples(st.just("share_spans"), i),
         st.tuples(st.just("stylize"), i, st.sampled_from(PAL), off, st.one_of(st.none(), off)),
         st.tuples(st.just("stylize"), i, st.sampled_from(PAL), off, st.one_of(st.none(), off)),
         st.tuples(st.just("highlight_regex"), i, st.integers(0, len(REGEXES) - 1), style_opt()),
@@ -180,7 +182,8 @@ class Histories(Part):
     budget = {"quick": (16, 1500), "thorough": (16, 20000)}
 
     def strategy(self, tier):
-        return st.builds(lambda pool, ops: {"pool": pool, "ops": ops}, st.lists(ctor_strategy(), min_size=1, max_size=3), st.lists(op_strategy(), min_size=1, max_size=12))
+        return st.builds(lambda pool, ops, lazy: {"pool": pool, "ops": ops, "lazy": lazy}, st.lists(ctor_strategy(), min_size=1, max_size=3), st.lists(op_strategy(), min_size=1, max_size=12),
+                         st.sampled_from([False, False, True]))
 
     def check(self, spec, ctx):
         from rich.text import Text
@@ -199,6 +202,16 @@ class Histories(Part):
             t, m = pool[i]
             desc = "%r on %r" % (op, m.plain)
             new = None  # (Text, TM) replacing pool[i]
+            if name == "append_split":
+                # append() directly followed by split() with a separator of two characters (nothing reads the text in between): the separator may
+                # straddle the boundary between what was there and what was appended
+                sut(t.append, op[2], GS.build_style(op[3]))
+                m = m.append_str(op[2], op[3])
+                pool[i] = (t, m)
+                op = ["split", op[1]] + list(op[4:])
+                name = "split"
+                desc = "append + %r on %r" % (op, m.plain)
+                ctx.cls("append-then-split")
             if name == "append_str":
                 _, _, s, sty = op
                 sut(t.append, s, GS.build_style(sty))
@@ -401,6 +414,18 @@ class Histories(Part):
                 if mm.plain != m.plain.expandtabs(size):
                     raise AssertionError("model expandtabs disagrees with str.expandtabs")
                 new = (t, mm)
+            elif name == "share_spans":
+                # one list of spans is given to two texts through the `spans` setter (each text must keep a list of its own)
+                if len(pool) >= 5:
+                    continue
+                r = sut(t.copy)
+                shared = list(t.spans)
+                t.spans = shared
+                r.spans = shared
+                pool.append((r, m.copy()))
+                applied += 1
+                ctx.cls("spans-set-from-one-list")
+                continue
             elif name == "copy":
                 r = sut(t.copy)
                 if len(pool) < 4:
@@ -467,6 +492,11 @@ class Histories(Part):
             applied += 1
             if name in MOVERS and (len(new[1]) != len(m) or name in ("split", "divide", "slice", "index", "join")):
                 moved = True
+            if spec.get("lazy"):
+                # nothing is read between the steps (reading .plain joins the pieces appended so far); every value is compared once at the end
+                pool[i] = new
+                ctx.cls(name)
+                continue
             if not compare(ctx, new[0], new[1], desc, name):
                 return
             pool[i] = new
@@ -474,6 +504,11 @@ class Histories(Part):
             # values that were not the target of the operation must be untouched (no aliasing between copies)
             for j, (ot, om) in enumerate(pool):
                 if j != i and not compare(ctx, ot, om, desc + " (another value, #%d, afterwards)" % j, "alias-" + name):
+                    return
+        if spec.get("lazy"):
+            ctx.cls("compared-only-at-the-end")
+            for j, (ot, om) in enumerate(pool):
+                if not compare(ctx, ot, om, "after %r (value #%d, nothing was read in between)" % (spec["ops"], j), "lazy"):
                     return
         styled_survivor = any(o for _, mm in pool for _, o in mm.chars if o) or any(mm.base is not None and len(mm) for _, mm in pool)
         if applied >= 4 and styled_survivor and moved:
